@@ -3,10 +3,10 @@ package main
 // Contract-level stubs for code that is not encoded (listed in evidence as part of the claim).
 
 import (
-	"bytes"
 	"crypto/sha1"
 	"encoding/base64"
 	"encoding/json"
+	"errors"
 	"go/types"
 	"io"
 
@@ -130,55 +130,39 @@ func addStubIntrinsics(t map[string]Intrinsic) {
 		}
 		return IfaceV{}
 	}
-	// json.NewDecoder(r).Decode(v): the stub reads r to its end (the real decoder buffers ahead as well) and decodes the
-	// first value natively; what follows the first value is left undecoded, exactly as the real Decoder does.
+	// json.NewDecoder(r).Decode(v): the real encoding/json.Decoder runs natively; its source is an adapter whose Read
+	// executes the interpreted reader on demand, so the number, sizes and error results of the reads the decoder makes
+	// are the real decoder's (it stops reading once a value is complete; a read error after that point stays unseen).
 	t["encoding/json.NewDecoder"] = func(m *Machine, fr *Frame, fn *ssa.Function, a []Value) Value {
-		m.noteStub("encoding/json.NewDecoder (stub)")
+		m.noteStub("encoding/json.NewDecoder (native decoder over the interpreted reader)")
 		cell := new(Value)
 		*cell = m.zero(derefType(fn.Signature.Results().At(0).Type()))
-		m.side("jsondec")[cell] = a[0]
+		ir := &interpReader{m: m, r: a[0].(IfaceV), errs: map[error]IfaceV{}}
+		ir.dec = json.NewDecoder(ir)
+		m.side("jsondec")[cell] = ir
 		return cell
 	}
 	t["(*encoding/json.Decoder).Decode"] = func(m *Machine, fr *Frame, fn *ssa.Function, a []Value) Value {
-		m.noteStub("encoding/json.Decoder.Decode (native on concrete bytes, first value only)")
-		cell := a[0].(*Value)
-		var data []byte
-		if buf, ok := m.side("jsondecbuf")[cell].(string); ok {
-			data = []byte(buf)
-		} else {
-			r, _ := m.side("jsondec")[cell].(IfaceV)
-			for i := 0; i < 1000; i++ {
-				p := make([]Value, 512)
-				for j := range p {
-					p[j] = m.tf.Const(8, 0)
-				}
-				res, ok := m.callMethod(fr, r, "Read", p)
-				if !ok {
-					m.unsupported("json decoder source without Read")
-				}
-				tup := res.(TupleV)
-				n := int(m.concreteInt(fr, tup[0].(*Term), "decoder read count"))
-				chunk, okc := m.concreteBytes(p[:n])
-				if !okc {
-					m.unsupported("json.Decoder over symbolic bytes")
-				}
-				data = append(data, chunk...)
-				if e := tup[1].(IfaceV); e.T != nil {
-					break
-				}
-			}
+		m.noteStub("encoding/json.Decoder.Decode (native on concrete bytes)")
+		ir, _ := m.side("jsondec")[a[0].(*Value)].(*interpReader)
+		if ir == nil {
+			m.unsupported("json.Decoder without NewDecoder")
 		}
+		ir.fr = fr
 		v := a[1].(IfaceV)
 		pt, isPtr := v.T.(*types.Pointer)
 		if !isPtr || !isNamed(pt.Elem(), "encoding/json", "RawMessage") {
 			m.unsupported("json.Decoder.Decode into %v", v.T)
 		}
-		dec := json.NewDecoder(bytes.NewReader(data))
 		var rm json.RawMessage
-		err := dec.Decode(&rm)
-		rest, _ := io.ReadAll(dec.Buffered())
-		m.side("jsondecbuf")[cell] = string(rest)
+		err := ir.dec.Decode(&rm)
 		if err != nil {
+			if orig, ok := ir.errs[err]; ok {
+				return orig // the reader's own error, passed through by the decoder
+			}
+			if err == io.EOF {
+				return ir.eofValue(fr)
+			}
 			return m.newErrorString(err.Error())
 		}
 		*(v.V.(*Value)) = m.bytesValue(append([]byte{}, rm...))
@@ -223,3 +207,54 @@ func sha1Sum(b []byte) []byte {
 }
 
 func b64Encode(b []byte) string { return base64.StdEncoding.EncodeToString(b) }
+
+// interpReader is a native io.Reader whose Read runs the interpreted reader.
+type interpReader struct {
+	m    *Machine
+	fr   *Frame
+	r    IfaceV
+	dec  *json.Decoder
+	errs map[error]IfaceV
+}
+
+func (ir *interpReader) eofValue(fr *Frame) Value {
+	m := ir.m
+	g, _ := m.eng.Pkgs["io"].Members["EOF"].(*ssa.Global)
+	if g == nil {
+		m.unsupported("io.EOF not found")
+	}
+	return *m.globalAddr(fr, g)
+}
+
+func (ir *interpReader) Read(p []byte) (int, error) {
+	m := ir.m
+	vals := make([]Value, len(p))
+	for j := range vals {
+		vals[j] = m.tf.Const(8, 0)
+	}
+	res, ok := m.callMethod(ir.fr, ir.r, "Read", vals)
+	if !ok {
+		m.unsupported("json decoder source without Read")
+	}
+	tup := res.(TupleV)
+	n := int(m.concreteInt(ir.fr, tup[0].(*Term), "decoder read count"))
+	chunk, okc := m.concreteBytes(vals[:n])
+	if !okc {
+		m.unsupported("json.Decoder over symbolic bytes")
+	}
+	copy(p, chunk)
+	e := tup[1].(IfaceV)
+	if e.T == nil {
+		return n, nil
+	}
+	if eof, isI := ir.eofValue(ir.fr).(IfaceV); isI && eof.T != nil && e.T == eof.T && e.V == eof.V {
+		return n, io.EOF
+	}
+	txt := "error"
+	if s, isS := m.errorString(ir.fr, e).(string); isS {
+		txt = s
+	}
+	ne := errors.New(txt)
+	ir.errs[ne] = e
+	return n, ne
+}
